@@ -473,8 +473,8 @@ def run_unit(ctx: C.Ctx):
                 "changes (together with the getter prints).",
         "samples": samples,
         "distribution": stats,
-        "guard": "set_brightness 0..255; blink duration >= 0, times a positive int; fade step > 0 and whole (outside: F-C04-led-fractional-step), "
-                 "delay >= 0; flash_pattern delay >= 0, entries 0..255 and not strictly between 1 and 2 (outside: F-C04-led-pattern-1-2); "
+        "guard": "set_brightness 0..255; blink duration >= 0, times a positive int; fade step > 0 and whole (a fractional step is outside the documented int domain: theorem C04_led_fractional_step_refuted shows the guard is needed; not a finding), "
+                 "delay >= 0; flash_pattern delay >= 0, entries 0..255 and not strictly between 1 and 2 (such entries are outside the documented Sequence[int] domain: C04_led_pattern_entry_refuted; not a finding); "
                  "values below 2^15 (C int)",
         "unmodelled": ["C int overflow (arguments >= 2^15 on AVR)", "negative delays (wrap to huge unsigned values on the device; the host raises)",
                        "a pattern that is not a literal list (the parser rejects it)", "Led objects created inside loops / functions"],
